@@ -407,6 +407,7 @@ def main(argv=None):
         'counters': dict(sorted(merged['counters'].items())),
         'distinct_observations': {k: len(v) for k, v in sorted(merged['dsets'].items())},
         'exceptions_recorded_not_judged': merged['raised'],
+        'notes': merged['notes'][:16],
         'per_case_timeouts': merged['timeouts'],
         'shards': len(shards), 'shard_wall_s': shard_times,
         'known_findings_matched': {k: len(v) for k, v in known_hits.items()},
@@ -434,6 +435,8 @@ def main(argv=None):
         print(f'    distinct {k} = {len(v)}')
     if merged['raised']:
         print('    exceptions recorded (not judged):', dict(sorted(merged['raised'].items())))
+    for n_ in merged['notes'][:8]:
+        print('    note:', str(n_)[:600])
     for eid, ws in known_hits.items():
         e = next(e for e in open_entries if e['id'] == eid)
         print(f"KNOWN-FINDING: property={prop} {eid}: {e.get('what_fails', e.get('mechanism', ''))} [{len(ws)} occurrence(s) this run]")
